@@ -16,7 +16,8 @@ RULE = ("cases = histories of 2..10 file-system mutations on a generated project
         "judged stream strictly later than any earlier parse (the 'not advanced' class - equal, +1 ns, older - is a "
         "pinned known finding and excluded by construction). After every step four buffers (import m / from m import "
         "name / from m import * / relative import from inside a package) are queried by new Scripts in the same "
-        "process; at the last step and one drawn intermediate step the answers are compared with (a) a fresh process "
+        "process, and two call buffers are asked for their signatures (same path, same text: within the 3 s "
+        "signature cache window); at the last step and one drawn intermediate step the answers are compared with (a) a fresh process "
         "with an EMPTY cache directory (the reference) and (b) a new process sharing the long-lived process's warm "
         "pickle cache directory. Non-trivial: a definition an earlier answer contained no longer exists, or a new one "
         "appeared, at the time of comparison; distinct = hash(history).")
@@ -29,9 +30,11 @@ DEFS = ["fun_one", "fun_two", "fun_three", "ClsOne", "ClsTwo", "CONST_A", "CONST
 
 def body(names, pad=0):
     out = []
-    for n in names:
+    for i, n in enumerate(names):
         if n.startswith("fun"):
-            out.append("def %s(arg):\n    return arg\n" % n)
+            # the parameter list depends on where the function stands in the file, so that a rewrite usually changes
+            # the signature as well (stale signatures are stale definitions too)
+            out.append("def %s(arg%s):\n    return arg\n" % (n, "".join(", extra_%d=%d" % (k, k) for k in range(i + len(names) - 1))))
         elif n.startswith("Cls"):
             out.append("class %s:\n    attr = 1\n" % n)
         else:
@@ -139,6 +142,8 @@ def buffers(fs_root, in_pkg):
         for n in ("fun_one", "ClsOne", "CONST_A"):
             out.append(("from %s import %s\n%s" % (m, n, n), None, "goto"))
         out.append(("import %s.inner\n%s.inner." % (m, m), None, "complete"))
+        out.append(("from %s import fun_one\nfun_one(" % m, None, "get_signatures"))
+        out.append(("import %s\n%s.fun_two(1, " % (m, m), None, "get_signatures"))
     if in_pkg:
         out.append(("from . import alpha_mod\nalpha_mod.", "alpha_mod_user_pkg/buf.py", "complete"))
     return out
@@ -150,6 +155,8 @@ def ask(jedi, project, root, buf):
     path = str(root / (rel or "main_buffer.py"))
     try:
         s = jedi.Script(code, path=path, project=project)
+        if method == "get_signatures":
+            return tuple(sorted((x.name, "signature", x.to_string(), x.index) for x in s.get_signatures(len(lines), len(lines[-1]))))
         res = getattr(s, method)(len(lines), len(lines[-1])) if method == "complete" else s.goto(len(lines), len(lines[-1]), follow_imports=True)
     except Exception as e:
         return ("exc", type(e).__name__)
@@ -168,7 +175,7 @@ def ref_jobs(root, bufs):
     for i, (code, rel, method) in enumerate(bufs):
         lines = code.split("\n")
         jobs.append({"id": str(i), "text": code, "path": str(root / (rel or "main_buffer.py")), "project": str(root),
-                     "queries": [[method if method == "complete" else "goto_follow", len(lines), len(lines[-1])]]})
+                     "queries": [[{"complete": "complete", "goto": "goto_follow"}.get(method, method), len(lines), len(lines[-1])]]})
     return jobs
 
 
@@ -176,6 +183,8 @@ def canon_ref(ans, root, method):
     a = ans[0]
     if "exc" in a:
         return ("exc", a["exc"])
+    if method == "get_signatures":
+        return tuple(sorted((d["name"], "signature", d["str"], d["index"]) for d in a["ok"]))
     out = []
     for d in a["ok"]:
         mp = d.get("module_path")
